@@ -15,6 +15,8 @@ Record hstep := mk_hstep {
   hs_op : anchored;
   hs_impl : option rmodel;            (* Apply's result; None = error *)
   hs_intact : bool;                   (* inputs deep-equal before/after, no state with an error *)
+  hs_again : bool;                    (* the same call repeated on the same applier instance gave the same answer *)
+  hs_novalidators : bool;             (* an applier whose parser has refusing request-time validators gave the same answer *)
   hs_seen : option (Z * Z);           (* arguments received by the time validator (non-batch parse) *)
   hs_parser_refused : bool;
   hs_bytes : option (protocol * url_table * string)   (* per-step protocol, net/url oracle, request bytes *)
@@ -92,6 +94,12 @@ Section Judge.
             (* the mirror is proved equal to the spec (run_refines_spec), so a disagreement with
                the implementation on these observables is a spec failure of the implementation *)
             if negb (opt_rm_equiv m (hs_impl s)) then SpecFail (100 * idx) else
+            (* Apply is a function of (operation, state): an applier that answers differently the
+               second time carries state the specification does not have *)
+            if negb (hs_again s) then SpecFail (100 * idx + 90) else
+            (* request-time validators (node clock, allowed origins) are for requests that are not yet
+               anchored: they must not decide what an anchored operation does *)
+            if negb (hs_novalidators s) then SpecFail (100 * idx + 91) else
             (* byte level: the model derives the view from the request bytes itself (parser mirror,
                Gallina SHA-2); only the primitive signature verdict is taken from the label *)
             let byte_ok :=
